@@ -1,12 +1,1296 @@
 /-
-  placeholder — to be replaced by the port (see /verif/PORTING.md)
+  protocol/*.go and util/util.go — packet headers
+    u.Buffer(content)
+    p.VLAN(TPID,PCP,DEI,VID)                     p.Ethernet(Delimiter,HWDst,HWSrc,VLAN,Ethertype,Data)
+    p.ARP(HWType,ProtoType,HWLength,ProtoLength,Operation,HWSrc,IPSrc,HWDst,IPDst)
+    p.IPv4(Version,IHL,DSCP,ECN,Length,Id,Flags,FragmentOffset,TTL,Protocol,Checksum,NWSrc,NWDst,Options,Data)
+    p.IPv6(Version,TrafficClass,FlowLabel,Length,NextHeader,HopLimit,NWSrc,NWDst,Hbh,Routing,Fragment,Data)
+    p.Option(Type,Length,Data)  p.HopByHopHeader(NextHeader,HEL,[Option])  p.RoutingHeader(NextHeader,HEL,RoutingType,SegmentsLeft,Data)
+    p.FragmentHeader(NextHeader,Reserved,FragmentOffset,MoreFragments,Identification)
+    p.ICMP(Type,Code,Checksum,Data)  p.UDP(PortSrc,PortDst,Length,Checksum,Data)
+    p.TCP(PortSrc,PortDst,SeqNum,AckNum,HdrLen,Code,WinSize,Checksum,UrgFlag,Data)
+    p.IGMPv1or2 / p.IGMPv3Query / p.IGMPv3GroupRecord / p.IGMPv3MembershipReport
+    p.DHCP(...,Options [p.dhcpoption(tag,data)])   p.LLDP(ChassisTLV,PortTLV,TTLTLV)
+  Everything follows the Go code statement by statement, defects included.
 -/
 import OFV.Model.Api
+import OFV.Gen.Pure
 namespace OFV.Model
 open OFV OFV.Go
 
-def kindsProto : KindTab := []
-def funcsProto : FuncTab := []
-def methodsProto : MethodTab := []
+/-! ### helpers -/
+
+/-- first `k` bytes of `b`, zero-padded to exactly `k` -/
+def pFitTo (k : Nat) (b : Bytes) : Bytes := b.take k ++ zeros (k - b.length)
+
+/-- `copy(data[n:n+k], b); n += k` on a freshly made buffer: the slice expression must fit (panic otherwise),
+    the copy is cut to `k` bytes and the rest of the window keeps its zeros -/
+def pCopyIn (k : Nat) (b : Bytes) : Piece := .put (pFitTo k b)
+
+/-- net.IP.To4(): a 4-byte address as is, a 16-byte v4-mapped address's last four bytes, otherwise nil -/
+def ipTo4? (ip : Bytes) : Option Bytes :=
+  if ip.length == 4 then some ip
+  else if ip.length == 16 && ip.take 10 == zeros 10 && ip[10]? == some 0xff && ip[11]? == some 0xff then some (ip.drop 12)
+  else none
+
+/-- To4() used as the source of a `copy` (nil copies nothing) -/
+def ipTo4 (ip : Bytes) : Bytes := (ipTo4? ip).getD []
+
+/-- net.IPv4(a,b,c,d): the 16-byte v4-mapped form -/
+def ipV4Mapped (a b c d : UInt8) : Bytes := zeros 10 ++ [0xff, 0xff, a, b, c, d]
+
+def pBytesOf : V → R Bytes
+  | .bytes b => .ok b
+  | _ => .panic
+
+def pIpList : List V → R (List Bytes)
+  | [] => .ok []
+  | x :: xs => do
+    let b ← pBytesOf x
+    let r ← pIpList xs
+    pure (b :: r)
+
+/-! ### util.Buffer -/
+namespace UBuffer
+def content : V → R Bytes
+  | .obj "u.Buffer" [.bytes c] => .ok c
+  | _ => .panic
+def mk (b : Bytes) : V := .obj "u.Buffer" [.bytes b]
+def lenM (v : V) : R (UInt16 × V) := do let c ← content v; same (n16 c.length) v
+def marshalM (v : V) : R (Bytes × V) := do let c ← content v; same c v
+/-- Reset(); Write(data) — never fails -/
+def unmarshal (_recv : V) (data : Slice) : R V := .ok (mk data.bytes)
+def zero : V := mk []
+end UBuffer
+
+/-! ### VLAN -/
+namespace PVLAN
+/-- `tci = (tci | uint16(v.PCP)<<13) + (tci | uint16(v.DEI)<<12) + (tci | v.VID)` with tci = 0 -/
+def packTCI (pcp dei : UInt8) (vid : UInt16) : UInt16 :=
+  (((0 : UInt16) ||| (pcp.toUInt16 <<< 13)) + ((0 : UInt16) ||| (dei.toUInt16 <<< 12))) + ((0 : UInt16) ||| vid)
+def unpackPCP (tci : UInt16) : UInt8 := ((0xe000 &&& tci) >>> 13).toUInt8
+def unpackDEI (tci : UInt16) : UInt8 := ((0x1000 &&& tci) >>> 12).toUInt8
+def unpackVID (tci : UInt16) : UInt16 := 0x0fff &&& tci
+
+def vid : V → Nat
+  | .obj "p.VLAN" [_, _, _, .num v] => v
+  | _ => 0
+def bytes : V → R Bytes
+  | .obj "p.VLAN" [.num tpid, .num pcp, .num dei, .num vid] =>
+    .ok (be16 (n16 tpid) ++ be16 (packTCI (n8 pcp) (n8 dei) (n16 vid)))
+  | _ => .panic
+def lenM (v : V) : R (UInt16 × V) := same 4 v
+def marshalM (v : V) : R (Bytes × V) := do let b ← bytes v; same b v
+def unmarshal (_recv : V) (data : Slice) : R V :=
+  if data.len < 4 then .err else do
+    let tpid ← data.u16In 0 2
+    let tci ← data.u16From 2
+    pure (.obj "p.VLAN" [V.u16 tpid, V.u8 (unpackPCP tci), V.u8 (unpackDEI tci), V.u16 (unpackVID tci)])
+def zero : V := .obj "p.VLAN" [.num 0, .num 0, .num 0, .num 0]
+/-- NewVLAN() -/
+def new : V := .obj "p.VLAN" [.num Gen.protocol.VLAN_MSG, .num 0, .num 0, .num 0]
+end PVLAN
+
+/-! ### ARP -/
+namespace PARP
+def len : V → R UInt16
+  | .obj "p.ARP" [.num ht, .num pt, .num hl, .num pl, .num op, _, _, _, _] =>
+    .ok (Gen.protocol.ARP.Len
+      { HWType := n16 ht, ProtoType := n16 pt, HWLength := n8 hl, ProtoLength := n8 pl, Operation := n16 op })
+  | _ => .panic
+def lenM (v : V) : R (UInt16 × V) := do let l ← len v; same l v
+def marshalM (v : V) : R (Bytes × V) :=
+  match v with
+  | .obj "p.ARP" [.num ht, .num pt, .num hl, .num pl, .num op, .bytes hs, .bytes ips, .bytes hd, .bytes ipd] => do
+    let l ← len v
+    let h := (n8 hl).toNat
+    let p := (n8 pl).toNat
+    let bs ← fill l.toNat [pU16 ht, pU16 pt, pU8 hl, pU8 pl, pU16 op,
+      pCopyIn h hs, pCopyIn p (ipTo4 ips), pCopyIn h hd, pCopyIn p (ipTo4 ipd)]
+    same bs v
+  | _ => .panic
+def unmarshal (_recv : V) (data : Slice) : R V :=
+  if data.len < 8 then .err else do
+    let ht ← data.u16In 0 2
+    let pt ← data.u16In 2 4
+    let hl ← data.byteAt 4
+    let pl ← data.byteAt 5
+    let op ← data.u16In 6 8
+    let h := hl.toNat
+    let p := pl.toNat
+    if data.len - 8 < h * 2 + p * 2 then .err else do
+      let s1 ← data.sliceR 8 (8 + h)
+      let s2 ← data.sliceR (8 + h) (8 + h + p)
+      let s3 ← data.sliceR (8 + h + p) (8 + h + p + h)
+      let s4 ← data.sliceR (8 + h + p + h) (8 + h + p + h + p)
+      pure (.obj "p.ARP" [V.u16 ht, V.u16 pt, V.u8 hl, V.u8 pl, V.u16 op,
+        .bytes (makeCopy 6 s1.bytes), .bytes (makeCopy 4 s2.bytes), .bytes (makeCopy 6 s3.bytes), .bytes (makeCopy 4 s4.bytes)])
+def zero : V := .obj "p.ARP" [.num 0, .num 0, .num 0, .num 0, .num 0, .bytes [], .bytes [], .bytes [], .bytes []]
+/-- NewARP(opt) -/
+def new (opt : Nat) : R V :=
+  if opt ≠ Gen.protocol.Type_Request ∧ opt ≠ Gen.protocol.Type_Reply then .err
+  else .ok (.obj "p.ARP" [.num 1, .num 0x800, .num 6, .num 4, V.u16 (n16 opt),
+    .bytes (zeros 6), .bytes (zeros 4), .bytes (zeros 6), .bytes (zeros 4)])
+end PARP
+
+/-! ### ICMP -/
+namespace PICMP
+def len : V → R UInt16
+  | .obj "p.ICMP" [_, _, _, .bytes d] => .ok (n16 (4 + d.length))
+  | _ => .panic
+def lenM (v : V) : R (UInt16 × V) := do let l ← len v; same l v
+def marshalM (v : V) : R (Bytes × V) :=
+  match v with
+  | .obj "p.ICMP" [.num ty, .num code, .num cs, .bytes d] => do
+    let l ← len v
+    let bs ← fill l.toNat [pU8 ty, pU8 code, pU16 cs, pCopy d]
+    same bs v
+  | _ => .panic
+def unmarshal (_recv : V) (data : Slice) : R V :=
+  if data.len < 4 then .err else do
+    let ty ← data.byteAt 0
+    let code ← data.byteAt 1
+    let cs ← data.u16In 2 4
+    let rest ← data.fromR 4
+    pure (.obj "p.ICMP" [V.u8 ty, V.u8 code, V.u16 cs, .bytes (makeCopy (data.len - 4) rest.bytes)])
+def zero : V := .obj "p.ICMP" [.num 0, .num 0, .num 0, .bytes []]
+end PICMP
+
+/-! ### TCP -/
+namespace PTCP
+/-- `(t.HdrLen << 4) & 0xf0` -/
+def packOff (hdrLen : UInt8) : UInt8 := (hdrLen <<< 4) &&& 0xf0
+/-- `t.Code & 0x3f` -/
+def packCode (code : UInt8) : UInt8 := code &&& 0x3f
+/-- `(data[12] >> 4) & 0xf` -/
+def unpackOff (b : UInt8) : UInt8 := (b >>> 4) &&& 0xf
+def unpackCode (b : UInt8) : UInt8 := b &&& 0x3f
+
+def len : V → R UInt16
+  | .obj "p.TCP" [_, _, _, _, _, _, _, _, _, .bytes d] => .ok (n16 (20 + d.length))
+  | _ => .panic
+def lenM (v : V) : R (UInt16 × V) := do let l ← len v; same l v
+def marshalM (v : V) : R (Bytes × V) :=
+  match v with
+  | .obj "p.TCP" [.num ps, .num pd, .num sq, .num ak, .num hl, .num code, .num win, .num cs, .num urg, .bytes d] => do
+    let l ← len v
+    let bs ← fill l.toNat [pU16 ps, pU16 pd, pU32 sq, pU32 ak, .put [packOff (n8 hl)], .put [packCode (n8 code)],
+      pU16 win, pU16 cs, pU16 urg, pCopy d]
+    same bs v
+  | _ => .panic
+def unmarshal (recv : V) (data : Slice) : R V :=
+  if data.len < 20 then .err else do
+    let ps ← data.u16In 0 2
+    let pd ← data.u16In 2 4
+    let sq ← data.u32In 4 8
+    let ak ← data.u32In 8 12
+    let b12 ← data.byteAt 12
+    let b13 ← data.byteAt 13
+    let win ← data.u16In 14 16
+    let cs ← data.u16In 16 18
+    let urg ← data.u16In 18 20
+    let old := match recv with
+      | .obj _ [_, _, _, _, _, _, _, _, _, d] => d
+      | _ => .bytes []
+    let rest ← data.fromR 20
+    let d := if data.len > 20 then .bytes (makeCopy (data.len - 20) rest.bytes) else old
+    pure (.obj "p.TCP" [V.u16 ps, V.u16 pd, V.u32 sq, V.u32 ak, V.u8 (unpackOff b12), V.u8 (unpackCode b13),
+      V.u16 win, V.u16 cs, V.u16 urg, d])
+def zero : V := .obj "p.TCP" [.num 0, .num 0, .num 0, .num 0, .num 0, .num 0, .num 0, .num 0, .num 0, .bytes []]
+end PTCP
+
+/-! ### UDP -/
+namespace PUDP
+def len : V → R UInt16
+  | .obj "p.UDP" [_, _, _, _, .bytes d] => .ok (n16 (8 + d.length))
+  | _ => .panic
+def lenM (v : V) : R (UInt16 × V) := do let l ← len v; same l v
+def marshalM (v : V) : R (Bytes × V) :=
+  match v with
+  | .obj "p.UDP" [.num ps, .num pd, .num ln, .num cs, .bytes d] => do
+    let l ← len v
+    let bs ← fill l.toNat [pU16 ps, pU16 pd, pU16 ln, pU16 cs, pCopy d]
+    same bs v
+  | _ => .panic
+/-- `u.Data = append(u.Data, data[8:]...)`: the receiver's previous payload stays in front -/
+def unmarshal (recv : V) (data : Slice) : R V :=
+  if data.len < 8 then .err else do
+    let ps ← data.u16In 0 2
+    let pd ← data.u16In 2 4
+    let ln ← data.u16In 4 6
+    let cs ← data.u16In 6 8
+    let old := match recv with
+      | .obj _ [_, _, _, _, .bytes d] => d
+      | _ => []
+    let rest ← data.fromR 8
+    pure (.obj "p.UDP" [V.u16 ps, V.u16 pd, V.u16 ln, V.u16 cs, .bytes (old ++ rest.bytes)])
+def zero : V := .obj "p.UDP" [.num 0, .num 0, .num 0, .num 0, .bytes []]
+end PUDP
+
+/-! ### IGMP -/
+namespace PIGMPv1or2
+def len : V → R UInt16
+  | .obj "p.IGMPv1or2" [.num ty, .num mrt, .num cs, _] =>
+    .ok (Gen.protocol.IGMPv1or2.Len { Type_ := n8 ty, MaxResponseTime := n8 mrt, Checksum := n16 cs })
+  | _ => .panic
+def lenM (v : V) : R (UInt16 × V) := do let l ← len v; same l v
+def marshalM (v : V) : R (Bytes × V) :=
+  match v with
+  | .obj "p.IGMPv1or2" [.num ty, .num mrt, .num cs, .bytes g] => do
+    let l ← len v
+    let bs ← fill l.toNat [pU8 ty, pU8 mrt, pU16 cs, pCopyIn 4 (ipTo4 g)]
+    same bs v
+  | _ => .panic
+def unmarshal (_recv : V) (data : Slice) : R V :=
+  if data.len < 8 then .err else do
+    let ty ← data.byteAt 0
+    let mrt ← data.byteAt 1
+    let cs ← data.u16In 2 4
+    let g ← data.sliceR 4 8
+    pure (.obj "p.IGMPv1or2" [V.u8 ty, V.u8 mrt, V.u16 cs, .bytes (makeCopy 4 g.bytes)])
+def zero : V := .obj "p.IGMPv1or2" [.num 0, .num 0, .num 0, .bytes []]
+def mk (ty mrt : Nat) (g : V) : V := .obj "p.IGMPv1or2" [.num ty, V.u8 (n8 mrt), .num 0, g]
+end PIGMPv1or2
+
+/-- `for …: append(xs, data[n:n+4]); n += 4`, `count` times (the slice expression may reach up to cap) -/
+def pReadIPs (data : Slice) : Nat → Nat → R (List V)
+  | _, 0 => .ok []
+  | n, k + 1 => do
+    let s ← data.sliceR n (n + 4)
+    let rest ← pReadIPs data (n + 4) k
+    pure (.bytes s.bytes :: rest)
+
+/-- `for …: append(xs, binary.BigEndian.Uint32(data[n:])); n += 4`, `count` times -/
+def pReadU32s (data : Slice) : Nat → Nat → R (List V)
+  | _, 0 => .ok []
+  | n, k + 1 => do
+    let w ← data.u32From n
+    let rest ← pReadU32s data (n + 4) k
+    pure (V.u32 w :: rest)
+
+namespace PIGMPv3Query
+/-- `sBit | p.RobustnessValue&0x7` with sBit = 0x8 when S is set -/
+def packSQRV (s : Bool) (qrv : UInt8) : UInt8 := (if s then (0x8 : UInt8) else 0x0) ||| (qrv &&& 0x7)
+def unpackS (b : UInt8) : Bool := b &&& 0x8 != 0
+def unpackQRV (b : UInt8) : UInt8 := b &&& 0x7
+
+def len : V → R UInt16
+  | .obj "p.IGMPv3Query" [.num ty, .num mrt, .num cs, _, .num rsv, .num s, .num rv, .num it, .num ns, _] =>
+    .ok (Gen.protocol.IGMPv3Query.Len
+      { Type_ := n8 ty, MaxResponseTime := n8 mrt, Checksum := n16 cs, Reserved := n8 rsv,
+        SuppressRouterProcessing := (s != 0), RobustnessValue := n8 rv, IntervalTime := n8 it, NumberOfSources := n16 ns })
+  | _ => .panic
+def lenM (v : V) : R (UInt16 × V) := do let l ← len v; same l v
+def marshalM (v : V) : R (Bytes × V) :=
+  match v with
+  | .obj "p.IGMPv3Query" [.num ty, .num mrt, .num cs, .bytes g, _, .num s, .num rv, .num it, .num ns, .list srcs] => do
+    let l ← len v
+    let ips ← pIpList srcs
+    let bs ← fill l.toNat ([pU8 ty, pU8 mrt, pU16 cs, pCopyIn 4 (ipTo4 g), .put [packSQRV (s != 0) (n8 rv)], pU8 it, pU16 ns]
+      ++ ips.map (fun ip => pCopyIn 4 (ipTo4 ip)))
+    same bs v
+  | _ => .panic
+def unmarshal (recv : V) (data : Slice) : R V :=
+  if data.len < 12 then .err else do
+    let ty ← data.byteAt 0
+    let mrt ← data.byteAt 1
+    let cs ← data.u16From 2
+    let g ← data.sliceR 4 8
+    let b8 ← data.byteAt 8
+    let it ← data.byteAt 9
+    let ns ← data.u16From 10
+    let (rsv, old) := match recv with
+      | .obj _ [_, _, _, _, r, _, _, _, _, .list o] => (r, o)
+      | _ => (.num 0, [])
+    let l := Gen.protocol.IGMPv3Query.Len { NumberOfSources := ns }
+    if data.len < l.toNat then .err else do
+      let ips ← pReadIPs data 12 ns.toNat
+      pure (.obj "p.IGMPv3Query" [V.u8 ty, V.u8 mrt, V.u16 cs, .bytes (makeCopy 4 g.bytes), rsv, V.bool (unpackS b8),
+        V.u8 (unpackQRV b8), V.u8 it, V.u16 ns, .list (old ++ ips)])
+def zero : V := .obj "p.IGMPv3Query" [.num 0, .num 0, .num 0, .bytes [], .num 0, .num 0, .num 0, .num 0, .num 0, .list []]
+end PIGMPv3Query
+
+namespace PIGMPv3GroupRecord
+def len : V → R UInt16
+  | .obj "p.IGMPv3GroupRecord" [.num ty, .num aux, .num ns, _, _, _] =>
+    .ok (Gen.protocol.IGMPv3GroupRecord.Len { Type_ := n8 ty, AuxDataLen := n8 aux, NumberOfSources := n16 ns })
+  | _ => .panic
+def lenM (v : V) : R (UInt16 × V) := do let l ← len v; same l v
+def bytes (v : V) : R Bytes :=
+  match v with
+  | .obj "p.IGMPv3GroupRecord" [.num ty, .num aux, .num ns, .bytes mc, .list srcs, .list auxd] => do
+    let l ← len v
+    let ips ← pIpList srcs
+    fill l.toNat ([pU8 ty, pU8 aux, pU16 ns, pCopyIn 4 (ipTo4 mc)]
+      ++ ips.map (fun ip => pCopyIn 4 (ipTo4 ip)) ++ auxd.map (fun d => pU32 d.asNat))
+  | _ => .panic
+def marshalM (v : V) : R (Bytes × V) := do let b ← bytes v; same b v
+def unmarshal (recv : V) (data : Slice) : R V :=
+  if data.len < 8 then .err else do
+    let ty ← data.byteAt 0
+    let aux ← data.byteAt 1
+    let ns ← data.u16From 2
+    let mc ← data.sliceR 4 8
+    let (oldS, oldA) := match recv with
+      | .obj _ [_, _, _, _, .list s, .list a] => (s, a)
+      | _ => ([], [])
+    let l := Gen.protocol.IGMPv3GroupRecord.Len { Type_ := ty, AuxDataLen := aux, NumberOfSources := ns }
+    if data.len < l.toNat then .err else do
+      let ips ← pReadIPs data 8 ns.toNat
+      let ws ← pReadU32s data (8 + 4 * ns.toNat) aux.toNat
+      pure (.obj "p.IGMPv3GroupRecord" [V.u8 ty, V.u8 aux, V.u16 ns, .bytes (makeCopy 4 mc.bytes),
+        .list (oldS ++ ips), .list (oldA ++ ws)])
+def zero : V := .obj "p.IGMPv3GroupRecord" [.num 0, .num 0, .num 0, .bytes [], .list [], .list []]
+end PIGMPv3GroupRecord
+
+namespace PIGMPv3MembershipReport
+def recLens : List V → R (List UInt16)
+  | [] => .ok []
+  | r :: rs => do
+    let l ← PIGMPv3GroupRecord.len r
+    let ls ← recLens rs
+    pure (l :: ls)
+def len : V → R UInt16
+  | .obj "p.IGMPv3MembershipReport" [_, _, _, _, _, .list rs] => do
+    let ls ← recLens rs
+    .ok (8 + sum16 ls)
+  | _ => .panic
+def lenM (v : V) : R (UInt16 × V) := do let l ← len v; same l v
+/-- `b, err := r.MarshalBinary(); copy(data[n:], b); n += int(r.Len())` per record -/
+def recPieces : List V → R (List Piece)
+  | [] => .ok []
+  | r :: rs => do
+    let b ← PIGMPv3GroupRecord.bytes r
+    let l ← PIGMPv3GroupRecord.len r
+    let ps ← recPieces rs
+    pure (pCopyAdv b l.toNat :: ps)
+def marshalM (v : V) : R (Bytes × V) :=
+  match v with
+  | .obj "p.IGMPv3MembershipReport" [.num ty, _, .num cs, _, .num ng, .list rs] => do
+    let l ← len v
+    -- the fixed part is written before the first record is marshalled
+    let pre := [pU8 ty, pSkip 1, pU16 cs, pSkip 2, pU16 ng]
+    let _ ← fill l.toNat pre
+    let ps ← recPieces rs
+    let bs ← fill l.toNat (pre ++ ps)
+    same bs v
+  | _ => .panic
+/-- the record loop: `NumberOfGroups` iterations, each re-slicing `data[n:]` -/
+def readRecs (data : Slice) : Nat → Nat → R (List V)
+  | _, 0 => .ok []
+  | n, k + 1 => do
+    let d ← data.fromR n
+    let gr ← PIGMPv3GroupRecord.unmarshal PIGMPv3GroupRecord.zero d
+    let l ← PIGMPv3GroupRecord.len gr
+    let rest ← readRecs data (n + l.toNat) k
+    pure (gr :: rest)
+def unmarshal (recv : V) (data : Slice) : R V :=
+  if data.len < 8 then .err else do
+    let ty ← data.byteAt 0
+    let cs ← data.u16From 2
+    let ng ← data.u16From 6
+    let (r1, r2, old) := match recv with
+      | .obj _ [_, a, _, b, _, .list o] => (a, b, o)
+      | _ => (.num 0, .num 0, [])
+    let rs ← readRecs data 8 ng.toNat
+    pure (.obj "p.IGMPv3MembershipReport" [V.u8 ty, r1, V.u16 cs, r2, V.u16 ng, .list (old ++ rs)])
+def zero : V := .obj "p.IGMPv3MembershipReport" [.num 0, .num 0, .num 0, .num 0, .num 0, .list []]
+end PIGMPv3MembershipReport
+
+/-! ### IPv6 extension headers -/
+namespace POption
+def len : V → R UInt16
+  | .obj "p.Option" [.num ty, .num ln, _] => .ok (Gen.protocol.Option.Len { Type_ := n8 ty, Length := n8 ln })
+  | _ => .panic
+def lenM (v : V) : R (UInt16 × V) := do let l ← len v; same l v
+def bytes (v : V) : R Bytes :=
+  match v with
+  | .obj "p.Option" [.num ty, .num ln, .bytes d] => do
+    let l ← len v
+    fill l.toNat [pU8 ty, pU8 ln, pCopy d]
+  | _ => .panic
+def marshalM (v : V) : R (Bytes × V) := do let b ← bytes v; same b v
+def unmarshal (_recv : V) (data : Slice) : R V := do
+  let ty ← data.byteAt 0
+  let ln ← data.byteAt 1
+  if data.len - 2 < ln.toNat then .err else do
+    let s ← data.sliceR 2 (2 + ln.toNat)
+    pure (.obj "p.Option" [V.u8 ty, V.u8 ln, .bytes (makeCopy ln.toNat s.bytes)])
+def zero : V := .obj "p.Option" [.num 0, .num 0, .bytes []]
+end POption
+
+namespace PHopByHop
+def len : V → R UInt16
+  | .obj "p.HopByHopHeader" [.num nh, .num hel, _] => .ok (Gen.protocol.HopByHopHeader.Len { NextHeader := n8 nh, HEL := n8 hel })
+  | _ => .panic
+def lenM (v : V) : R (UInt16 × V) := do let l ← len v; same l v
+def nextHeader : V → R UInt8
+  | .obj "p.HopByHopHeader" [.num nh, _, _] => .ok (n8 nh)
+  | _ => .panic
+/-- `ob, err := o.MarshalBinary(); copy(data[n:], ob); n += int(o.Len())` per option (a nil option panics) -/
+def optPieces : List V → R (List Piece)
+  | [] => .ok []
+  | o :: os => do
+    let b ← POption.bytes o
+    let l ← POption.len o
+    let ps ← optPieces os
+    pure (pCopyAdv b l.toNat :: ps)
+def bytes (v : V) : R Bytes :=
+  match v with
+  | .obj "p.HopByHopHeader" [.num nh, .num hel, .list os] => do
+    let l ← len v
+    let pre := [pU8 nh, pU8 hel]
+    let _ ← fill l.toNat pre
+    let ps ← optPieces os
+    fill l.toNat (pre ++ ps)
+  | _ => .panic
+def marshalM (v : V) : R (Bytes × V) := do let b ← bytes v; same b v
+
+structure St where
+  n : Nat
+  opts : List V
+
+def unmarshal (recv : V) (data : Slice) : R V := do
+  let nh ← data.byteAt 0
+  let hel ← data.byteAt 1
+  -- `len(data) < 8*int(h.HEL+1)` : HEL+1 is computed in uint8 (255 wraps to 0)
+  if data.len < 8 * (hel + 1).toNat then .err else do
+    let old := match recv with
+      | .obj _ [_, _, .list o] => o
+      | _ => []
+    let l := Gen.protocol.HopByHopHeader.Len { NextHeader := nh, HEL := hel }
+    let st ← goLoop (σ := St) (l.toNat + 2) (fun s => s.n < l.toNat) (·.n)
+      (fun s => do
+        let d ← data.fromR s.n
+        let o ← POption.unmarshal POption.zero d
+        let ol ← POption.len o
+        pure { n := s.n + ol.toNat, opts := s.opts ++ [o] })
+      { n := 2, opts := old }
+    pure (.obj "p.HopByHopHeader" [V.u8 nh, V.u8 hel, .list st.opts])
+def zero : V := .obj "p.HopByHopHeader" [.num 0, .num 0, .list []]
+end PHopByHop
+
+namespace PRouting
+def len : V → R UInt16
+  | .obj "p.RoutingHeader" [.num nh, .num hel, .num rt, .num sl, _] =>
+    .ok (Gen.protocol.RoutingHeader.Len { NextHeader := n8 nh, HEL := n8 hel, RoutingType := n8 rt, SegmentsLeft := n8 sl })
+  | _ => .panic
+def lenM (v : V) : R (UInt16 × V) := do let l ← len v; same l v
+def nextHeader : V → R UInt8
+  | .obj "p.RoutingHeader" [.num nh, _, _, _, _] => .ok (n8 nh)
+  | _ => .panic
+def bytes (v : V) : R Bytes :=
+  match v with
+  | .obj "p.RoutingHeader" [.num nh, .num hel, .num rt, .num sl, buf] => do
+    let l ← len v
+    let _ ← fill l.toNat [pU8 nh, pU8 hel, pU8 rt, pU8 sl]
+    let c ← UBuffer.content buf      -- h.Data.Bytes() : nil pointer panics
+    fill l.toNat [pU8 nh, pU8 hel, pU8 rt, pU8 sl, pCopy c]
+  | _ => .panic
+def marshalM (v : V) : R (Bytes × V) := do let b ← bytes v; same b v
+def unmarshal (_recv : V) (data : Slice) : R V := do
+  let nh ← data.byteAt 0
+  let hel ← data.byteAt 1
+  if data.len < 8 * (hel + 1).toNat then .err else do
+    let rt ← data.byteAt 2
+    let sl ← data.byteAt 3
+    let l := Gen.protocol.RoutingHeader.Len { NextHeader := nh, HEL := hel, RoutingType := rt, SegmentsLeft := sl }
+    let s ← data.sliceR 4 l.toNat
+    let buf ← UBuffer.unmarshal UBuffer.zero s
+    pure (.obj "p.RoutingHeader" [V.u8 nh, V.u8 hel, V.u8 rt, V.u8 sl, buf])
+def zero : V := .obj "p.RoutingHeader" [.num 0, .num 0, .num 0, .num 0, .nil]
+end PRouting
+
+namespace PFragment
+/-- `fragment := h.FragmentOffset << 3; if h.MoreFragments { fragment |= 1 }` -/
+def packFrag (off : UInt16) (more : Bool) : UInt16 := if more then (off <<< 3) ||| 1 else off <<< 3
+def unpackOff (w : UInt16) : UInt16 := w >>> 3
+def unpackMore (w : UInt16) : Bool := (w &&& 1) == 1
+
+def len : V → R UInt16
+  | .obj "p.FragmentHeader" [.num nh, .num rs, .num off, .num m, .num ident] =>
+    .ok (Gen.protocol.FragmentHeader.Len
+      { NextHeader := n8 nh, Reserved := n8 rs, FragmentOffset := n16 off, MoreFragments := (m != 0), Identification := n32 ident })
+  | _ => .panic
+def lenM (v : V) : R (UInt16 × V) := do let l ← len v; same l v
+def nextHeader : V → R UInt8
+  | .obj "p.FragmentHeader" [.num nh, _, _, _, _] => .ok (n8 nh)
+  | _ => .panic
+def bytes (v : V) : R Bytes :=
+  match v with
+  | .obj "p.FragmentHeader" [.num nh, .num rs, .num off, .num m, .num ident] => do
+    let l ← len v
+    fill l.toNat [pU8 nh, pU8 rs, .put (be16 (packFrag (n16 off) (m != 0))), pU32 ident]
+  | _ => .panic
+def marshalM (v : V) : R (Bytes × V) := do let b ← bytes v; same b v
+def unmarshal (_recv : V) (data : Slice) : R V :=
+  if data.len < 8 then .err else do
+    let nh ← data.byteAt 0
+    let rs ← data.byteAt 1
+    let w ← data.u16From 2
+    let ident ← data.u32From 4
+    pure (.obj "p.FragmentHeader" [V.u8 nh, V.u8 rs, V.u16 (unpackOff w), V.bool (unpackMore w), V.u32 ident])
+def zero : V := .obj "p.FragmentHeader" [.num 0, .num 0, .num 0, .num 0, .num 0]
+end PFragment
+
+/-! ### containers: IPv4, IPv6, Ethernet.
+  Their `Data` field is a `util.Message`; `Len`/`MarshalBinary` take the dispatcher over all message kinds as a parameter
+  (`anyLen`, `anyMarshal`) and the knot is tied below by recursion on a nesting depth. -/
+
+namespace PIPv4
+/-- `(i.Version << 4) + i.IHL` -/
+def packVerIHL (ver ihl : UInt8) : UInt8 := (ver <<< 4) + ihl
+/-- `(i.DSCP << 2) + i.ECN` -/
+def packDscpEcn (dscp ecn : UInt8) : UInt8 := (dscp <<< 2) + ecn
+/-- `(i.Flags << 13) + i.FragmentOffset` -/
+def packFlagsFrag (flags frag : UInt16) : UInt16 := (flags <<< 13) + frag
+def unpackVersion (b : UInt8) : UInt8 := b >>> 4
+def unpackIHL (b : UInt8) : UInt8 := b &&& 0x0f
+def unpackDSCP (b : UInt8) : UInt8 := b >>> 2
+def unpackECN (b : UInt8) : UInt8 := b &&& 0x03
+def unpackFlags (w : UInt16) : UInt16 := w >>> 13
+def unpackFrag (w : UInt16) : UInt16 := w &&& 0x1fff
+
+/-- `if i.IHL < 5 { i.IHL = 5 }` -/
+def fixIHL (ihl : UInt8) : UInt8 := if ihl < 5 then 5 else ihl
+/-- `uint16(i.IHL*4)` — the product is taken in uint8 -/
+def hdrLen (ihl : UInt8) : UInt16 := (ihl * 4).toUInt16
+
+def lenW (anyLen : V → R (UInt16 × V)) : V → R (UInt16 × V)
+  | .obj "p.IPv4" [ver, .num ihl, dscp, ecn, ln, ident, fl, fo, ttl, pr, cs, src, dst, opts, dat] =>
+    let ihl' := fixIHL (n8 ihl)
+    if dat.isNil then
+      .ok (hdrLen ihl', .obj "p.IPv4" [ver, V.u8 ihl', dscp, ecn, ln, ident, fl, fo, ttl, pr, cs, src, dst, opts, dat])
+    else do
+      let (l, dat') ← anyLen dat
+      .ok (hdrLen ihl' + l, .obj "p.IPv4" [ver, V.u8 ihl', dscp, ecn, ln, ident, fl, fo, ttl, pr, cs, src, dst, opts, dat'])
+  | _ => .panic
+
+def marshalW (anyLen : V → R (UInt16 × V)) (anyMarshal : V → R (Bytes × V)) (v : V) : R (Bytes × V) := do
+  let (l, v) ← lenW anyLen v
+  match v with
+  | .obj "p.IPv4" [.num ver, .num ihl, .num dscp, .num ecn, .num ln, .num ident, .num fl, .num fo, .num ttl, .num pr, .num cs,
+      .bytes src, .bytes dst, opts, dat] =>
+    let ob ← UBuffer.content opts
+    let pre := [.put [packVerIHL (n8 ver) (n8 ihl)], .put [packDscpEcn (n8 dscp) (n8 ecn)], pU16 ln, pU16 ident,
+      .put (be16 (packFlagsFrag (n16 fl) (n16 fo))), pU8 ttl, pU8 pr, pU16 cs,
+      pCopyAdv (ipTo4 src) 4, pCopyAdv (ipTo4 dst) 4, pCopy ob]
+    let buf ← fill l.toNat pre
+    if dat.isNil then .ok (buf, v) else do
+      let (b, dat') ← anyMarshal dat
+      let out ← fillFrom buf (piecesLen pre) [pCopy b]
+      .ok (out, .obj "p.IPv4" [.num ver, .num ihl, .num dscp, .num ecn, .num ln, .num ident, .num fl, .num fo, .num ttl, .num pr,
+        .num cs, .bytes src, .bytes dst, opts, dat'])
+  | _ => .panic
+
+/-- NewICMP() / NewUDP() / new(util.Buffer) -/
+def newICMP : V := .obj "p.ICMP" [.num 0, .num 0, .num 0, .bytes []]
+def newUDP : V := .obj "p.UDP" [.num 0, .num 0, .num 0, .num 0, .bytes []]
+
+def unmarshal (recv : V) (data : Slice) : R V :=
+  if data.len < 20 then .err else do
+    let b0 ← data.byteAt 0
+    let b1 ← data.byteAt 1
+    let ln ← data.u16From 2
+    let ident ← data.u16From 4
+    let flg ← data.u16From 6
+    let ttl ← data.byteAt 8
+    let pr ← data.byteAt 9
+    let cs ← data.u16From 10
+    let s ← data.sliceR 12 16
+    let d ← data.sliceR 16 20
+    let ihl := unpackIHL b0
+    let oldOpts := match recv with
+      | .obj _ [_, _, _, _, _, _, _, _, _, _, _, _, _, o, _] => o
+      | _ => UBuffer.zero
+    let osl ← data.sliceR 20 (ihl * 4).toNat
+    let opts ← UBuffer.unmarshal oldOpts osl
+    let n := (ihl * 4).toNat
+    let rest ← data.fromR n
+    let dat ←
+      if pr.toNat = Gen.protocol.Type_ICMP then PICMP.unmarshal newICMP rest
+      else if pr.toNat = Gen.protocol.Type_UDP then PUDP.unmarshal newUDP rest
+      else UBuffer.unmarshal UBuffer.zero rest
+    pure (.obj "p.IPv4" [V.u8 (unpackVersion b0), V.u8 ihl, V.u8 (unpackDSCP b1), V.u8 (unpackECN b1), V.u16 ln, V.u16 ident,
+      V.u16 (unpackFlags flg), V.u16 (unpackFrag flg), V.u8 ttl, V.u8 pr, V.u16 cs,
+      .bytes (makeCopy 4 s.bytes), .bytes (makeCopy 4 d.bytes), opts, dat])
+def zero : V := .obj "p.IPv4" [.num 0, .num 0, .num 0, .num 0, .num 0, .num 0, .num 0, .num 0, .num 0, .num 0, .num 0,
+  .bytes [], .bytes [], UBuffer.zero, .nil]
+/-- NewIPv4() -/
+def new : V := .obj "p.IPv4" [.num 0, .num 0, .num 0, .num 0, .num 0, .num 0, .num 0, .num 0, .num 0, .num 0, .num 0,
+  .bytes (zeros 4), .bytes (zeros 4), UBuffer.zero, .nil]
+end PIPv4
+
+namespace PIPv6
+/-- `(i.Version << 4) | (i.TrafficClass>>4)&0x0f` -/
+def packB0 (ver tc : UInt8) : UInt8 := (ver <<< 4) ||| ((tc >>> 4) &&& 0x0f)
+/-- `(i.TrafficClass<<4)&0xf0 | uint8(i.FlowLabel>>16)` -/
+def packB1 (tc : UInt8) (fl : UInt32) : UInt8 :=
+  let hi : UInt8 := (tc <<< 4) &&& 0xf0
+  let lo : UInt8 := (fl >>> 16).toUInt8
+  hi ||| lo
+/-- `uint16(i.FlowLabel)` -/
+def packLo (fl : UInt32) : UInt16 := fl.toUInt16
+def unpackVersion (b0 : UInt8) : UInt8 := b0 >>> 4
+/-- `tcLeft := (ihl & 0x0f) << 4; tcLeft | (tc >> 4)` -/
+def unpackClass (b0 b1 : UInt8) : UInt8 := ((b0 &&& (0x0f : UInt8)) <<< (4 : UInt8)) ||| (b1 >>> (4 : UInt8))
+/-- `binary.BigEndian.Uint32(data[0:4]) & 0x000FFFFF` -/
+def unpackFlow (w : UInt32) : UInt32 := w &&& 0x000FFFFF
+
+def optLen (f : V → R UInt16) (h : V) : R UInt16 := if h.isNil then .ok 0 else f h
+
+def lenW (anyLen : V → R (UInt16 × V)) : V → R (UInt16 × V)
+  | .obj "p.IPv6" [ver, tc, fl, ln, nh, hl, src, dst, hbh, rt, fr, dat] => do
+    let l1 ← optLen PHopByHop.len hbh
+    let l2 ← optLen PRouting.len rt
+    let l3 ← optLen PFragment.len fr
+    let (l4, dat') ← anyLen dat           -- i.Data.Len() without a nil check
+    .ok (40 + l1 + l2 + l3 + l4, .obj "p.IPv6" [ver, tc, fl, ln, nh, hl, src, dst, hbh, rt, fr, dat'])
+  | _ => .panic
+
+/-- the encoder's walk along the next-header chain: the encodings of the visited extension headers, in order.
+    Every visited header contributes at least 8 bytes (an encoder of size 0 panics), so after `fuel = L/8 + 2` headers
+    the Go code has panicked on `data[n:]`; exhausting the fuel is therefore reported as `panic`. -/
+def extChain (hbh rt fr : V) : Nat → UInt8 → R (List Bytes)
+  | 0, _ => .panic
+  | f + 1, nxt =>
+    if nxt.toNat = Gen.protocol.Type_HBH then do
+      let nx ← PHopByHop.nextHeader hbh
+      let b ← PHopByHop.bytes hbh
+      let rest ← extChain hbh rt fr f nx
+      pure (b :: rest)
+    else if nxt.toNat = Gen.protocol.Type_Routing then do
+      let nx ← PRouting.nextHeader rt
+      let b ← PRouting.bytes rt
+      let rest ← extChain hbh rt fr f nx
+      pure (b :: rest)
+    else if nxt.toNat = Gen.protocol.Type_Fragment then do
+      let nx ← PFragment.nextHeader fr
+      let b ← PFragment.bytes fr
+      let rest ← extChain hbh rt fr f nx
+      pure (b :: rest)
+    else .ok []
+
+def marshalW (anyLen : V → R (UInt16 × V)) (anyMarshal : V → R (Bytes × V)) (v : V) : R (Bytes × V) := do
+  let (l, v) ← lenW anyLen v
+  match v with
+  | .obj "p.IPv6" [.num ver, .num tc, .num fl, .num ln, .num nh, .num hl, .bytes src, .bytes dst, hbh, rt, fr, dat] =>
+    let pre := [.put [packB0 (n8 ver) (n8 tc)], .put [packB1 (n8 tc) (n32 fl)], .put (be16 (packLo (n32 fl))), pU16 ln,
+      pU8 nh, pU8 hl, pCopyAdv src 16, pCopyAdv dst 16]
+    let _ ← fill l.toNat pre
+    let chain ← extChain hbh rt fr (l.toNat / 8 + 2) (n8 nh)
+    let pre2 := pre ++ chain.map pCopy ++ [pCopy []]
+    let buf ← fill l.toNat pre2
+    if dat.isNil then .ok (buf, v) else do
+      let (b, dat') ← anyMarshal dat
+      let out ← fillFrom buf (piecesLen pre2) [pCopy b]
+      .ok (out, .obj "p.IPv6" [.num ver, .num tc, .num fl, .num ln, .num nh, .num hl, .bytes src, .bytes dst, hbh, rt, fr, dat'])
+  | _ => .panic
+
+structure XSt where
+  n : Nat
+  nxt : UInt8
+  hbh : V
+  rt : V
+  fr : V
+
+/-- one pass through the `switch nxtHeader` of the decoder; `none` = `break checkXHeader` -/
+def xstep (data : Slice) (s : XSt) : R (Option XSt) :=
+  if s.nxt.toNat = Gen.protocol.Type_HBH then do
+    let d ← data.fromR s.n
+    let h ← PHopByHop.unmarshal PHopByHop.zero d
+    let nx ← PHopByHop.nextHeader h
+    let l ← PHopByHop.len h
+    pure (some { s with n := s.n + l.toNat, nxt := nx, hbh := h })
+  else if s.nxt.toNat = Gen.protocol.Type_Routing then do
+    let d ← data.fromR s.n
+    let h ← PRouting.unmarshal PRouting.zero d
+    let nx ← PRouting.nextHeader h
+    let l ← PRouting.len h
+    pure (some { s with n := s.n + l.toNat, nxt := nx, rt := h })
+  else if s.nxt.toNat = Gen.protocol.Type_Fragment then do
+    let d ← data.fromR s.n
+    let h ← PFragment.unmarshal PFragment.zero d
+    let nx ← PFragment.nextHeader h
+    let l ← PFragment.len h
+    pure (some { s with n := s.n + l.toNat, nxt := nx, fr := h })
+  else .ok none
+
+/-- the `for checkExtHeader` loop. A pass that changes neither the offset nor the next-header value (a hop-by-hop
+    header with HEL = 255, i.e. size 0, naming itself as next header) repeats forever: `spin`.
+    Any other pass either advances the offset by at least 8 or is followed by one that does or leaves,
+    so `fuel = len + 4` is never exhausted otherwise. -/
+def xloop (data : Slice) : Nat → XSt → R XSt
+  | 0, _ => .spin
+  | f + 1, s =>
+    match xstep data s with
+    | .ok none => .ok s
+    | .ok (some s') => if s'.n = s.n ∧ s'.nxt = s.nxt then .spin else xloop data f s'
+    | .err => .err
+    | .panic => .panic
+    | .spin => .spin
+
+def unmarshal (recv : V) (data : Slice) : R V :=
+  if data.len < 40 then .err else do
+    let b0 ← data.byteAt 0
+    let b1 ← data.byteAt 1
+    let w ← data.u32In 0 4
+    let ln ← data.u16From 4
+    let nh ← data.byteAt 6
+    let hl ← data.byteAt 7
+    let s ← data.sliceR 8 24
+    let d ← data.sliceR 24 40
+    let (h0, r0, f0) := match recv with
+      | .obj _ [_, _, _, _, _, _, _, _, h, r, f, _] => (h, r, f)
+      | _ => (.nil, .nil, .nil)
+    let st ← xloop data (data.len + 4) { n := 40, nxt := nh, hbh := h0, rt := r0, fr := f0 }
+    let rest ← data.fromR st.n
+    let dat ←
+      if st.nxt.toNat = Gen.protocol.Type_IPv6ICMP then PICMP.unmarshal PIPv4.newICMP rest
+      else if st.nxt.toNat = Gen.protocol.Type_UDP then PUDP.unmarshal PIPv4.newUDP rest
+      else UBuffer.unmarshal UBuffer.zero rest
+    pure (.obj "p.IPv6" [V.u8 (unpackVersion b0), V.u8 (unpackClass b0 b1), V.u32 (unpackFlow w), V.u16 ln, V.u8 nh, V.u8 hl,
+      .bytes (makeCopy 16 s.bytes), .bytes (makeCopy 16 d.bytes), st.hbh, st.rt, st.fr, dat])
+def zero : V := .obj "p.IPv6" [.num 0, .num 0, .num 0, .num 0, .num 0, .num 0, .bytes [], .bytes [], .nil, .nil, .nil, .nil]
+end PIPv6
+
+namespace PEthernet
+def lenW (anyLen : V → R (UInt16 × V)) : V → R (UInt16 × V)
+  | .obj "p.Ethernet" [del, dst, src, vlan, et, dat] =>
+    let n : UInt16 := 12
+    let n := if PVLAN.vid vlan ≠ 0 then n + 4 else n
+    let n := n + 2
+    if dat.isNil then .ok (n, .obj "p.Ethernet" [del, dst, src, vlan, et, dat]) else do
+      let (l, dat') ← anyLen dat
+      .ok (n + l, .obj "p.Ethernet" [del, dst, src, vlan, et, dat'])
+  | _ => .panic
+
+def marshalW (anyLen : V → R (UInt16 × V)) (anyMarshal : V → R (Bytes × V)) (v : V) : R (Bytes × V) := do
+  let (l, v) ← lenW anyLen v
+  match v with
+  | .obj "p.Ethernet" [del, .bytes dst, .bytes src, vlan, .num et, dat] =>
+    let tagged := PVLAN.vid vlan ≠ 0
+    let vb ← if tagged then PVLAN.bytes vlan else .ok []
+    -- binary.BigEndian.PutUint16(data[n:n+2], e.Ethertype)
+    let pre := [pCopy dst, pCopy src] ++ (if tagged then [pCopy vb] else []) ++ [pU16 et]
+    let buf ← fill l.toNat pre
+    if dat.isNil then .ok (buf, v) else do
+      let (b, dat') ← anyMarshal dat
+      -- copy(data[n:n+len(bytes)], bytes): the slice expression must fit
+      let out ← fillFrom buf (piecesLen pre) [.put b]
+      .ok (out, .obj "p.Ethernet" [del, .bytes dst, .bytes src, vlan, .num et, dat'])
+  | _ => .panic
+
+def zero : V := .obj "p.Ethernet" [.num 0, .bytes [], .bytes [], PVLAN.zero, .num 0, .nil]
+/-- NewEthernet() -/
+def new : V := .obj "p.Ethernet" [.num 0, .bytes (zeros 6), .bytes (zeros 6), PVLAN.new, .num 0x800, .nil]
+
+def unmarshal (recv : V) (data : Slice) : R V :=
+  if data.len < 14 then .err else do
+    let del := match recv with
+      | .obj _ (d :: _) => d
+      | _ => .num 0
+    let s1 ← data.sliceR 0 6
+    let s2 ← data.sliceR 6 12
+    let et0 ← data.u16From 12
+    let (vlan, et, n) ←
+      if et0.toNat = Gen.protocol.VLAN_MSG then do
+        let d ← data.fromR 12
+        let vl ← PVLAN.unmarshal PVLAN.zero d
+        let et ← data.u16From 16           -- n += int(e.VLANID.Len())
+        pure (vl, et, 18)
+      else (.ok (PVLAN.zero, et0, 14) : R (V × UInt16 × Nat))
+    let rest ← data.fromR n
+    let dat ←
+      if et.toNat = Gen.protocol.IPv4_MSG then PIPv4.unmarshal PIPv4.zero rest
+      else if et.toNat = Gen.protocol.IPv6_MSG then PIPv6.unmarshal PIPv6.zero rest
+      else if et.toNat = Gen.protocol.ARP_MSG then PARP.unmarshal PARP.zero rest
+      else UBuffer.unmarshal UBuffer.zero rest
+    pure (.obj "p.Ethernet" [del, .bytes (makeCopy 6 s1.bytes), .bytes (makeCopy 6 s2.bytes), vlan, V.u16 et, dat])
+end PEthernet
+
+/-! ### `util.Message` dispatch over the kinds of this file.  `depth` bounds the nesting of containers inside
+    containers (Ethernet in Ethernet …); it is decreased at each container level and starts at 16, more than any
+    generated value nests; exhausting it yields `panic` (unreachable by construction). -/
+def protoAnyLenD : Nat → V → R (UInt16 × V)
+  | 0, _ => .panic
+  | d + 1, v =>
+    match v.kind with
+    | "p.Ethernet" => PEthernet.lenW (protoAnyLenD d) v
+    | "p.IPv4" => PIPv4.lenW (protoAnyLenD d) v
+    | "p.IPv6" => PIPv6.lenW (protoAnyLenD d) v
+    | "u.Buffer" => UBuffer.lenM v
+    | "p.VLAN" => PVLAN.lenM v
+    | "p.ARP" => PARP.lenM v
+    | "p.ICMP" => PICMP.lenM v
+    | "p.TCP" => PTCP.lenM v
+    | "p.UDP" => PUDP.lenM v
+    | "p.IGMPv1or2" => PIGMPv1or2.lenM v
+    | "p.IGMPv3Query" => PIGMPv3Query.lenM v
+    | "p.IGMPv3GroupRecord" => PIGMPv3GroupRecord.lenM v
+    | "p.IGMPv3MembershipReport" => PIGMPv3MembershipReport.lenM v
+    | "p.Option" => POption.lenM v
+    | "p.HopByHopHeader" => PHopByHop.lenM v
+    | "p.RoutingHeader" => PRouting.lenM v
+    | "p.FragmentHeader" => PFragment.lenM v
+    | _ => .panic
+
+def protoAnyMarshalD : Nat → V → R (Bytes × V)
+  | 0, _ => .panic
+  | d + 1, v =>
+    match v.kind with
+    | "p.Ethernet" => PEthernet.marshalW (protoAnyLenD d) (protoAnyMarshalD d) v
+    | "p.IPv4" => PIPv4.marshalW (protoAnyLenD d) (protoAnyMarshalD d) v
+    | "p.IPv6" => PIPv6.marshalW (protoAnyLenD d) (protoAnyMarshalD d) v
+    | "u.Buffer" => UBuffer.marshalM v
+    | "p.VLAN" => PVLAN.marshalM v
+    | "p.ARP" => PARP.marshalM v
+    | "p.ICMP" => PICMP.marshalM v
+    | "p.TCP" => PTCP.marshalM v
+    | "p.UDP" => PUDP.marshalM v
+    | "p.IGMPv1or2" => PIGMPv1or2.marshalM v
+    | "p.IGMPv3Query" => PIGMPv3Query.marshalM v
+    | "p.IGMPv3GroupRecord" => PIGMPv3GroupRecord.marshalM v
+    | "p.IGMPv3MembershipReport" => PIGMPv3MembershipReport.marshalM v
+    | "p.Option" => POption.marshalM v
+    | "p.HopByHopHeader" => PHopByHop.marshalM v
+    | "p.RoutingHeader" => PRouting.marshalM v
+    | "p.FragmentHeader" => PFragment.marshalM v
+    | _ => .panic
+
+def protoDepth : Nat := 16
+def protoAnyLenM (v : V) : R (UInt16 × V) := protoAnyLenD protoDepth v
+def protoAnyMarshalM (v : V) : R (Bytes × V) := protoAnyMarshalD protoDepth v
+
+namespace PEthernet
+def lenM (v : V) : R (UInt16 × V) := lenW protoAnyLenM v
+def marshalM (v : V) : R (Bytes × V) := marshalW protoAnyLenM protoAnyMarshalM v
+end PEthernet
+namespace PIPv4
+def lenM (v : V) : R (UInt16 × V) := lenW protoAnyLenM v
+def marshalM (v : V) : R (Bytes × V) := marshalW protoAnyLenM protoAnyMarshalM v
+end PIPv4
+namespace PIPv6
+def lenM (v : V) : R (UInt16 × V) := lenW protoAnyLenM v
+def marshalM (v : V) : R (Bytes × V) := marshalW protoAnyLenM protoAnyMarshalM v
+end PIPv6
+
+/-! ### DHCP -/
+namespace PDhcpOpt
+def tag : V → R UInt8
+  | .obj "p.dhcpoption" [.num t, _] => .ok (n8 t)
+  | _ => .panic
+def data : V → R Bytes
+  | .obj "p.dhcpoption" [_, .bytes d] => .ok d
+  | _ => .panic
+/-- dhcpoption.Len(): `uint16(len(self.data) + 2)` whatever the tag -/
+def len (o : V) : R UInt16 := do let d ← data o; .ok (n16 (d.length + 2))
+/-- DHCPNewOption(tag, data) -/
+def mk (t : UInt8) (d : Bytes) : V := .obj "p.dhcpoption" [V.u8 t, .bytes d]
+def isPadOrEnd (t : UInt8) : Bool := t.toNat == Gen.protocol.DHCP_OPT_PAD || t.toNat == Gen.protocol.DHCP_OPT_END
+/-- DHCPMarshalOption -/
+def marshalOption (o : V) : R Bytes := do
+  let t ← tag o
+  if isPadOrEnd t then .ok [t] else do
+    let d ← data o
+    if d.length > 253 then .err else .ok ([t, n8 d.length] ++ d)
+
+structure St where
+  pos : Nat
+  opts : List V
+  done : Bool
+
+/-- DHCPParseOptions(in) — `in[pos:pos+int(_len)]` may reach beyond len(in) up to cap(in) -/
+def parseOptions (inp : Slice) : R (List V) := do
+  let st ← goLoop (σ := St) (inp.len + 1) (fun s => s.pos < inp.len && !s.done) (·.pos)
+    (fun s => do
+      let t ← inp.byteAt s.pos
+      let pos := s.pos + 1
+      if t.toNat = Gen.protocol.DHCP_OPT_PAD then pure { s with pos := pos, opts := s.opts ++ [mk t []] }
+      else if t.toNat = Gen.protocol.DHCP_OPT_END then pure { s with pos := pos, done := true }
+      else if inp.len - pos ≥ 1 then do
+        let l ← inp.byteAt pos
+        let pos := pos + 1
+        let d ← inp.sliceR pos (pos + l.toNat)
+        pure { s with pos := pos + l.toNat, opts := s.opts ++ [mk t d.bytes] }
+      else pure { s with pos := pos })
+    { pos := 0, opts := [], done := false }
+  pure st.opts
+end PDhcpOpt
+
+namespace PDHCP
+/-- dhcpMagic -/
+def magic : UInt32 := 0x63825363
+
+def optLens : List V → R (List UInt16)
+  | [] => .ok []
+  | o :: os => do
+    let l ← PDhcpOpt.len o
+    let ls ← optLens os
+    pure (l :: ls)
+def hasEnd : List V → R Bool
+  | [] => .ok false
+  | o :: os => do
+    let t ← PDhcpOpt.tag o
+    let r ← hasEnd os
+    pure (t.toNat == Gen.protocol.DHCP_OPT_END || r)
+def len : V → R UInt16
+  | .obj "p.DHCP" [_, _, _, _, _, _, _, _, _, _, _, _, _, _, .list os] => do
+    let ls ← optLens os
+    let e ← hasEnd os
+    .ok (240 + sum16 ls + (if e then 0 else 1))
+  | _ => .panic
+def lenM (v : V) : R (UInt16 × V) := do let l ← len v; same l v
+
+def optBytes : List V → R Bytes
+  | [] => .ok []
+  | o :: os => do
+    let b ← PDhcpOpt.marshalOption o
+    let r ← optBytes os
+    pure (b ++ r)
+
+/-- the content of the bytes.Buffer that DHCP.Read assembles (binary.Write of a slice writes all its bytes) -/
+def readBuf : V → R Bytes
+  | .obj "p.DHCP" [.num op, .num ht, .num hl, .num ho, .num xid, .num secs, .num fl, .bytes cip, .bytes yip, .bytes sip,
+      .bytes gip, .bytes hw, .bytes sname, .bytes file, .list os] => do
+    let hdr := [n8 op, n8 ht, n8 hl, n8 ho] ++ be32 (n32 xid) ++ be16 (n16 secs) ++ be16 (n16 fl)
+      ++ cip ++ yip ++ sip ++ gip ++ copyInto (zeros 16) hw ++ pFitTo 64 sname ++ pFitTo 128 file ++ be32 magic
+    let ob ← optBytes os
+    let e ← hasEnd os
+    let tail ← if e then .ok [] else PDhcpOpt.marshalOption (PDhcpOpt.mk (n8 Gen.protocol.DHCP_OPT_END) [])
+    .ok (hdr ++ ob ++ tail)
+  | _ => .panic
+
+/-- DHCP.Read(b): what ends up in b[:n] -/
+def read (v : V) (blen : Nat) : R Bytes := do
+  let buf ← readBuf v
+  .ok (buf.take blen)
+
+/-- DHCP.Write(b): updated receiver and n (every field is assigned, so the previous receiver does not matter;
+    on an error return the partially updated receiver is not observable and not modelled) -/
+def write (_recv : V) (b : Bytes) : R (V × Nat) :=
+  if b.length < 240 then .err else
+  let data := Slice.exact b
+  do
+    let op ← data.byteAt 0
+    let ht ← data.byteAt 1
+    let hl ← data.byteAt 2
+    let ho ← data.byteAt 3
+    let xid ← data.u32In 4 8
+    let secs ← data.u16In 8 10
+    let fl ← data.u16In 10 12
+    let cip ← data.sliceR 12 16
+    let yip ← data.sliceR 16 20
+    let sip ← data.sliceR 20 24
+    let gip ← data.sliceR 24 28
+    let hw ← data.sliceR 28 44
+    -- d.ClientHWAddr = clientHWAddr[:d.HardwareLen] on a 16-byte array
+    let hws ← (Slice.exact hw.bytes).uptoR hl.toNat
+    let sname ← data.sliceR 44 108
+    let file ← data.sliceR 108 236
+    let mg ← data.u32In 236 240
+    if mg ≠ magic then .err else do
+      let optlen := b.length - 240
+      let opts ← PDhcpOpt.parseOptions (Slice.exact (b.drop 240))
+      .ok (.obj "p.DHCP" [V.u8 op, V.u8 ht, V.u8 hl, V.u8 ho, V.u32 xid, V.u16 secs, V.u16 fl, .bytes cip.bytes, .bytes yip.bytes,
+        .bytes sip.bytes, .bytes gip.bytes, .bytes hws.bytes, .bytes sname.bytes, .bytes file.bytes, .list opts], 240 + optlen)
+
+/-- NewDHCP(xid, op, hwtype) for xid ≠ 0 (xid = 0 draws a random number) -/
+def new (xid op hwtype : Nat) : R V :=
+  if n8 hwtype ≠ n8 Gen.protocol.DHCP_HW_ETHERNET then .err
+  else .ok (.obj "p.DHCP" [V.u8 (n8 op), V.u8 (n8 hwtype), .num 0, .num 0, V.u32 (n32 xid), .num 0, .num 0,
+    .bytes (zeros 4), .bytes (zeros 4), .bytes (zeros 4), .bytes (zeros 4), .bytes (zeros 16), .bytes (zeros 64), .bytes (zeros 128),
+    .list []])
+
+/-- NewDHCPDiscover / Offer / Request / Ack / Nak -/
+def newMsg (msg : Nat) (withClientId : Bool) (xid : Nat) (hw : Bytes) : R V := do
+  let d ← new xid msg Gen.protocol.DHCP_HW_ETHERNET
+  match d with
+  | .obj k [op, ht, _, ho, x, secs, fl, c, y, s, g, _, sn, f, _] =>
+    let o1 := PDhcpOpt.mk 53 [n8 msg]
+    let os := if withClientId then [o1, PDhcpOpt.mk (n8 Gen.protocol.DHCP_OPT_CLIENT_ID) hw] else [o1]
+    .ok (.obj k [op, ht, V.u8 (n8 hw.length), ho, x, secs, fl, c, y, s, g, .bytes hw, sn, f, .list os])
+  | _ => .panic
+def zero : V := .obj "p.DHCP" [.num 0, .num 0, .num 0, .num 0, .num 0, .num 0, .num 0, .bytes [], .bytes [], .bytes [], .bytes [],
+  .bytes [], .bytes (zeros 64), .bytes (zeros 128), .list []]
+end PDHCP
+
+/-! ### LLDP -/
+namespace PTLV
+/-- `(tni | uint16(t.Type)<<9) + (tni | uint16(t.Length))` with tni = 0 -/
+def packTypeLen (ty : UInt8) (ln : UInt16) : UInt16 := ((0 : UInt16) ||| (ty.toUInt16 <<< 9)) + ((0 : UInt16) ||| ln)
+def unpackType (w : UInt16) : UInt8 := (w >>> 9).toUInt8
+def unpackLen (w : UInt16) : UInt16 := 0x01ff &&& w
+
+/-- ChassisTLV / PortTLV .Read: the buffer content -/
+def readBuf (kind : String) : V → R Bytes
+  | .obj k [.num ty, .num ln, .num st, .bytes d] =>
+    if k = kind then .ok (be16 (packTypeLen (n8 ty) (n16 ln)) ++ [n8 st] ++ d) else .panic
+  | _ => .panic
+
+/-- ChassisTLV / PortTLV .Write(b): (n, err ≠ nil, receiver afterwards) -/
+def write (kind : String) (v : V) (b : Bytes) : R (Nat × Bool × V) :=
+  match v with
+  | .obj k [ty0, ln0, st0, d0] =>
+    if k ≠ kind then .panic else
+    match b with
+    | b0 :: b1 :: rest =>
+      let w := UInt16.ofNat (b0.toNat * 256 + b1.toNat)
+      let ty := V.u8 (unpackType w)
+      let ln := unpackLen w
+      match rest with
+      | [] => .ok (2, true, .obj k [ty, V.u16 ln, st0, d0])
+      | st :: rest2 =>
+        -- t.Data = make([]uint8, t.Length); binary.Read fills it or fails leaving the zeros
+        if rest2.length < ln.toNat then .ok (3, true, .obj k [ty, V.u16 ln, V.u8 st, .bytes (zeros ln.toNat)])
+        else .ok (3 + ln.toNat, false, .obj k [ty, V.u16 ln, V.u8 st, .bytes (rest2.take ln.toNat)])
+    | _ => .ok (0, true, .obj k [ty0, ln0, st0, d0])
+  | _ => .panic
+
+def ttlReadBuf : V → R Bytes
+  | .obj "p.TTLTLV" [.num ty, .num ln, .num secs] => .ok (be16 (packTypeLen (n8 ty) (n16 ln)) ++ be16 (n16 secs))
+  | _ => .panic
+def ttlWrite (v : V) (b : Bytes) : R (Nat × Bool × V) :=
+  match v with
+  | .obj "p.TTLTLV" [ty0, ln0, s0] =>
+    match b with
+    | b0 :: b1 :: rest =>
+      let w := UInt16.ofNat (b0.toNat * 256 + b1.toNat)
+      let ty := V.u8 (unpackType w)
+      let ln := V.u16 (unpackLen w)
+      match rest with
+      | c0 :: c1 :: _ => .ok (4, false, .obj "p.TTLTLV" [ty, ln, .num (c0.toNat * 256 + c1.toNat)])
+      | _ => .ok (2, true, .obj "p.TTLTLV" [ty, ln, s0])
+    | _ => .ok (0, true, .obj "p.TTLTLV" [ty0, ln0, s0])
+  | _ => .panic
+end PTLV
+
+namespace PLLDP
+def lenM (v : V) : R (UInt16 × V) := same 15 v
+/-- LLDP.Read(b): every TLV is read into the START of b (Chassis, Port, then Chassis again); result: b afterwards and n -/
+def read (v : V) (b : Bytes) : R (Bytes × Nat) :=
+  match v with
+  | .obj "p.LLDP" [ch, pt, _] => do
+    let cb ← PTLV.readBuf "p.ChassisTLV" ch
+    let m := min b.length cb.length
+    let b1 := copyInto b cb
+    if m = 0 then .ok (b1, 0) else do
+      let pb ← PTLV.readBuf "p.PortTLV" pt
+      let o := min b.length pb.length
+      let b2 := copyInto b1 pb
+      if o = 0 then .ok (b2, m) else
+        let b3 := copyInto b2 cb
+        .ok (b3, m + o + m)
+  | _ => .panic
+/-- LLDP.Write(b): Chassis, Port, then Chassis AGAIN (the TTL TLV is never parsed); the error of the last call counts -/
+def write (v : V) (b : Bytes) : R (V × Nat) :=
+  match v with
+  | .obj "p.LLDP" [ch, pt, ttl] => do
+    let (m, e1, ch1) ← PTLV.write "p.ChassisTLV" ch b
+    if m = 0 then (if e1 then .err else .ok (.obj "p.LLDP" [ch1, pt, ttl], 0)) else do
+      let (o, e2, pt1) ← PTLV.write "p.PortTLV" pt (b.drop m)
+      if o = 0 then (if e2 then .err else .ok (.obj "p.LLDP" [ch1, pt1, ttl], m)) else do
+        let (p, e3, ch2) ← PTLV.write "p.ChassisTLV" ch1 (b.drop (m + o))
+        if e3 then .err else .ok (.obj "p.LLDP" [ch2, pt1, ttl], m + o + p)
+  | _ => .panic
+end PLLDP
+
+/-! ### tables -/
+
+/-- kinds without MarshalBinary/UnmarshalBinary in Go (DHCP, LLDP: only `Len`, `Read`, `Write`): the generic
+    `enc`/`dec` ops print "nomarshal"/"nounmarshal" for them, which no model outcome matches; they are reached through
+    `methodsProto` instead.  The table entry only serves `Len`. -/
+def protoNoMarshal (_ : V) : R (Bytes × V) := .panic
+def protoNoUnmarshal (_ : V) (_ : Slice) : R V := .panic
+
+def kindsProto : KindTab := [
+  ("u.Buffer", ⟨UBuffer.lenM, UBuffer.marshalM, UBuffer.unmarshal, UBuffer.zero⟩),
+  ("p.VLAN", ⟨PVLAN.lenM, PVLAN.marshalM, PVLAN.unmarshal, PVLAN.zero⟩),
+  ("p.Ethernet", ⟨PEthernet.lenM, PEthernet.marshalM, PEthernet.unmarshal, PEthernet.zero⟩),
+  ("p.ARP", ⟨PARP.lenM, PARP.marshalM, PARP.unmarshal, PARP.zero⟩),
+  ("p.IPv4", ⟨PIPv4.lenM, PIPv4.marshalM, PIPv4.unmarshal, PIPv4.zero⟩),
+  ("p.IPv6", ⟨PIPv6.lenM, PIPv6.marshalM, PIPv6.unmarshal, PIPv6.zero⟩),
+  ("p.Option", ⟨POption.lenM, POption.marshalM, POption.unmarshal, POption.zero⟩),
+  ("p.HopByHopHeader", ⟨PHopByHop.lenM, PHopByHop.marshalM, PHopByHop.unmarshal, PHopByHop.zero⟩),
+  ("p.RoutingHeader", ⟨PRouting.lenM, PRouting.marshalM, PRouting.unmarshal, PRouting.zero⟩),
+  ("p.FragmentHeader", ⟨PFragment.lenM, PFragment.marshalM, PFragment.unmarshal, PFragment.zero⟩),
+  ("p.ICMP", ⟨PICMP.lenM, PICMP.marshalM, PICMP.unmarshal, PICMP.zero⟩),
+  ("p.TCP", ⟨PTCP.lenM, PTCP.marshalM, PTCP.unmarshal, PTCP.zero⟩),
+  ("p.UDP", ⟨PUDP.lenM, PUDP.marshalM, PUDP.unmarshal, PUDP.zero⟩),
+  ("p.IGMPv1or2", ⟨PIGMPv1or2.lenM, PIGMPv1or2.marshalM, PIGMPv1or2.unmarshal, PIGMPv1or2.zero⟩),
+  ("p.IGMPv3Query", ⟨PIGMPv3Query.lenM, PIGMPv3Query.marshalM, PIGMPv3Query.unmarshal, PIGMPv3Query.zero⟩),
+  ("p.IGMPv3GroupRecord", ⟨PIGMPv3GroupRecord.lenM, PIGMPv3GroupRecord.marshalM, PIGMPv3GroupRecord.unmarshal, PIGMPv3GroupRecord.zero⟩),
+  ("p.IGMPv3MembershipReport", ⟨PIGMPv3MembershipReport.lenM, PIGMPv3MembershipReport.marshalM, PIGMPv3MembershipReport.unmarshal,
+      PIGMPv3MembershipReport.zero⟩),
+  ("p.DHCP", ⟨PDHCP.lenM, protoNoMarshal, protoNoUnmarshal, PDHCP.zero⟩),
+  ("p.LLDP", ⟨PLLDP.lenM, protoNoMarshal, protoNoUnmarshal,
+      .obj "p.LLDP" [.obj "p.ChassisTLV" [.num 0, .num 0, .num 0, .bytes []], .obj "p.PortTLV" [.num 0, .num 0, .num 0, .bytes []],
+        .obj "p.TTLTLV" [.num 0, .num 0, .num 0]]⟩)
+]
+
+/-- the text of a value as bytes (harness-only observer `obs.Dump`) -/
+def protoTextBytes (v : V) : Bytes := v.toText.toUTF8.toList
+
+/-- harness-only observer `obs.Read(v, n)`: `b := make([]byte, n); k, err := v.Read(b)` ↦ `be32 k ++ b` -/
+def protoObsRead (v : V) (n : Nat) : R V :=
+  match v.kind with
+  | "p.DHCP" => do
+    let buf ← PDHCP.readBuf v
+    .ok (UBuffer.mk (be32 (n32 (min n buf.length)) ++ copyInto (zeros n) buf))
+  | "p.LLDP" => do
+    let (b, k) ← PLLDP.read v (zeros n)
+    .ok (UBuffer.mk (be32 (n32 k) ++ b))
+  | "p.ChassisTLV" => do
+    let buf ← PTLV.readBuf "p.ChassisTLV" v
+    .ok (UBuffer.mk (be32 (n32 (min n buf.length)) ++ copyInto (zeros n) buf))
+  | "p.PortTLV" => do
+    let buf ← PTLV.readBuf "p.PortTLV" v
+    .ok (UBuffer.mk (be32 (n32 (min n buf.length)) ++ copyInto (zeros n) buf))
+  | "p.TTLTLV" => do
+    let buf ← PTLV.ttlReadBuf v
+    .ok (UBuffer.mk (be32 (n32 (min n buf.length)) ++ copyInto (zeros n) buf))
+  | _ => .panic
+
+def protoIgmp12 (ty : Nat) : List V → R (List V)
+  | [g] => ret1 (PIGMPv1or2.mk ty 0 g)
+  | _ => .panic
+
+def protoDhcpMsg (msg : Nat) (cid : Bool) : List V → R (List V)
+  | [.num xid, .bytes hw] => do let d ← PDHCP.newMsg msg cid xid hw; ret1 d
+  | _ => .panic
+
+def funcsProto : FuncTab := [
+  ("u.NewBuffer", fun args => match args with
+    | [.bytes b] => ret1 (UBuffer.mk b)
+    | _ => .panic),
+  ("p.NewEthernet", fun _ => ret1 PEthernet.new),
+  ("p.NewVLAN", fun _ => ret1 PVLAN.new),
+  ("p.NewARP", fun args => match args with
+    | [.num opt] => do let a ← PARP.new opt; ret1 a
+    | _ => .panic),
+  ("p.NewIPv4", fun _ => ret1 PIPv4.new),
+  ("p.NewICMP", fun _ => ret1 PIPv4.newICMP),
+  ("p.NewUDP", fun _ => ret1 PIPv4.newUDP),
+  ("p.NewTCP", fun _ => ret1 PTCP.zero),
+  ("p.NewHopByHopHeader", fun _ => ret1 PHopByHop.zero),
+  ("p.NewRoutingHeader", fun _ => ret1 PRouting.zero),
+  ("p.NewFragmentHeader", fun _ => ret1 PFragment.zero),
+  ("p.NewIGMPv1Query", protoIgmp12 Gen.protocol.IGMPQuery),
+  ("p.NewIGMPv1Report", protoIgmp12 Gen.protocol.IGMPv1Report),
+  ("p.NewIGMPv2Report", protoIgmp12 Gen.protocol.IGMPv2Report),
+  ("p.NewIGMPv2Leave", protoIgmp12 Gen.protocol.IGMPv2LeaveGroup),
+  ("p.NewIGMPv2Query", fun args => match args with
+    | [g, .num mrt] => ret1 (PIGMPv1or2.mk Gen.protocol.IGMPQuery mrt g)
+    | _ => .panic),
+  ("p.NewIGMPv3Query", fun args => match args with
+    | [g, .num mrt, .num qi, .list srcs] =>
+      ret1 (.obj "p.IGMPv3Query" [.num Gen.protocol.IGMPQuery, V.u8 (n8 mrt), .num 0, g, .num 0, .num 0, .num 0, V.u8 (n8 qi),
+        V.u16 (n16 srcs.length), .list srcs])
+    | _ => .panic),
+  ("p.NewGroupRecord", fun args => match args with
+    | [.num ty, g, .list srcs] =>
+      ret1 (.obj "p.IGMPv3GroupRecord" [V.u8 (n8 ty), .num 0, V.u16 (n16 srcs.length), g, .list srcs, .list []])
+    | _ => .panic),
+  ("p.NewIGMPv3Report", fun args => match args with
+    | [.list gs] =>
+      ret1 (.obj "p.IGMPv3MembershipReport" [.num Gen.protocol.IGMPv3Report, .num 0, .num 0, .num 0, V.u16 (n16 gs.length), .list gs])
+    | _ => .panic),
+  ("p.NewDHCP", fun args => match args with
+    | [.num xid, .num op, .num ht] => do let d ← PDHCP.new xid op ht; ret1 d
+    | _ => .panic),
+  ("p.NewDHCPDiscover", protoDhcpMsg Gen.protocol.DHCP_MSG_DISCOVER true),
+  ("p.NewDHCPOffer", protoDhcpMsg Gen.protocol.DHCP_MSG_OFFER false),
+  ("p.NewDHCPRequest", protoDhcpMsg Gen.protocol.DHCP_MSG_REQUEST false),
+  ("p.NewDHCPAck", protoDhcpMsg Gen.protocol.DHCP_MSG_ACK false),
+  ("p.NewDHCPNak", protoDhcpMsg Gen.protocol.DHCP_MSG_NAK false),
+  ("p.DHCPNewOption", fun args => match args with
+    | [.num t, .bytes d] => ret1 (PDhcpOpt.mk (n8 t) d)
+    | _ => .panic),
+  ("p.DHCPStringOption", fun args => match args with
+    | [.num t, .bytes d] => ret1 (PDhcpOpt.mk (n8 t) d)
+    | _ => .panic),
+  ("p.DHCPIP4Option", fun args => match args with
+    | [.num t, .bytes ip] => match ipTo4? ip with
+      | some b => ret1 (PDhcpOpt.mk (n8 t) b)
+      | none => .err
+    | _ => .panic),
+  ("p.DHCPIP4sOption", fun args => match args with
+    | [.num t, .list ips] => do
+      let bs ← pIpList ips
+      -- the first address that is not IPv4 sets err and stops the loop; the option is built anyway but err is returned
+      if bs.all (fun ip => (ipTo4? ip).isSome) then ret1 (PDhcpOpt.mk (n8 t) (bs.map ipTo4).flatten) else .err
+    | _ => .panic),
+  ("p.DHCPMarshalOption", fun args => match args with
+    | [o] => do let b ← PDhcpOpt.marshalOption o; ret1 (.bytes b)
+    | _ => .panic),
+  ("p.DHCPWriteOption", fun args => match args with
+    | [w, o] => do
+      let b ← PDhcpOpt.marshalOption o
+      let _ ← UBuffer.content w
+      ret1 (.num b.length)
+    | _ => .panic),
+  ("p.DHCPParseOptions", fun args => match args with
+    | [.bytes b] => do let os ← PDhcpOpt.parseOptions (Slice.exact b); ret1 (.list os)
+    | _ => .panic),
+  ("obs.Dump", fun args => match args with
+    | [v] => ret1 (UBuffer.mk (protoTextBytes v))
+    | _ => .panic),
+  ("obs.Read", fun args => match args with
+    | [v, .num n] => do let r ← protoObsRead v n; ret1 r
+    | _ => .panic)
+]
+
+def protoTlvMethods (kind : String) : MethodTab := [
+  (kind ++ ".Read", fun recv args => match args with
+    | [.bytes b] => do let buf ← PTLV.readBuf kind recv; .ok (recv, [.num (min b.length buf.length)])
+    | _ => .panic),
+  (kind ++ ".Write", fun recv args => match args with
+    | [.bytes b] => do
+      let (n, e, v') ← PTLV.write kind recv b
+      if e then .err else .ok (v', [.num n])
+    | _ => .panic)
+]
+
+def protoUnmarshalMethod (ops : KindOps) (recv : V) (args : List V) : R (V × List V) :=
+  match args with
+  | [.bytes b] => do let v ← ops.unmarshal recv (Slice.exact b); upd v
+  | _ => .panic
+
+def methodsProtoBase : MethodTab := [
+  ("p.DHCP.Len", fun recv _ => do let l ← PDHCP.len recv; .ok (recv, [V.u16 l])),
+  ("p.DHCP.Read", fun recv args => match args with
+    | [.bytes b] => do let r ← PDHCP.read recv b.length; .ok (recv, [.num r.length])
+    | _ => .panic),
+  ("p.DHCP.Write", fun recv args => match args with
+    | [.bytes b] => do let (v', n) ← PDHCP.write recv b; .ok (v', [.num n])
+    | _ => .panic),
+  ("p.LLDP.Len", fun recv _ => .ok (recv, [.num 15])),
+  ("p.LLDP.Read", fun recv args => match args with
+    | [.bytes b] => do let (_, n) ← PLLDP.read recv b; .ok (recv, [.num n])
+    | _ => .panic),
+  ("p.LLDP.Write", fun recv args => match args with
+    | [.bytes b] => do let (v', n) ← PLLDP.write recv b; .ok (v', [.num n])
+    | _ => .panic),
+  ("p.TTLTLV.Read", fun recv args => match args with
+    | [.bytes b] => do let buf ← PTLV.ttlReadBuf recv; .ok (recv, [.num (min b.length buf.length)])
+    | _ => .panic),
+  ("p.TTLTLV.Write", fun recv args => match args with
+    | [.bytes b] => do
+      let (n, e, v') ← PTLV.ttlWrite recv b
+      if e then .err else .ok (v', [.num n])
+    | _ => .panic),
+  ("p.dhcpoption.Len", fun recv _ => do let l ← PDhcpOpt.len recv; .ok (recv, [V.u16 l])),
+  ("p.dhcpoption.Bytes", fun recv _ => do let d ← PDhcpOpt.data recv; .ok (recv, [.bytes d])),
+  ("p.dhcpoption.OptionType", fun recv _ => do let t ← PDhcpOpt.tag recv; .ok (recv, [V.u8 t])),
+  ("p.IGMPv1or2.GetMessageType", fun recv _ => match recv with
+    | .obj "p.IGMPv1or2" [.num ty, _, _, _] => .ok (recv, [.num ty])
+    | _ => .panic),
+  ("p.IGMPv3Query.GetMessageType", fun recv _ => .ok (recv, [.num Gen.protocol.IGMPQuery])),
+  ("p.IGMPv3MembershipReport.GetMessageType", fun recv _ => .ok (recv, [.num Gen.protocol.IGMPv3Report]))
+]
+
+def methodsProto : MethodTab := methodsProtoBase ++ protoTlvMethods "p.ChassisTLV" ++ protoTlvMethods "p.PortTLV"
+  -- `$v.UnmarshalBinary(x…)` / `$v.Len()` on an arbitrary receiver (the argument slice has exactly the given bytes)
+  ++ kindsProto.map (fun ko => (ko.1 ++ ".UnmarshalBinary", protoUnmarshalMethod ko.2))
 
 end OFV.Model
